@@ -449,7 +449,9 @@ impl TransformationRule for JoinCommutativityRule {
         let swapped_schema = new_join.output_schema.clone();
 
         // The commuted join produces its columns in another order than this group, so it lives in a group
-        // of its own.
+        // of its own. (If it is already in the memo there is nothing to add: it may even be this very
+        // expression, e.g. a cross join of a table with itself.)
+        let groups_before = memo.num_groups();
         let swapped_props = LogicalProperties::new(swapped_schema.clone())
             .with_cardinality(expr.properties.cardinality)
             .with_avg_row_size(expr.properties.avg_row_size);
@@ -460,6 +462,9 @@ impl TransformationRule for JoinCommutativityRule {
             )
             .with_properties(swapped_props),
         );
+        if memo.num_groups() == groups_before {
+            return Ok(vec![]);
+        }
         memo.mark_commuted(swapped_group);
 
         // A projection on top restores the column order of this group.
